@@ -298,6 +298,27 @@ def mask_codes(rnd, tier):
     return progs
 
 
+def mixed_arith(rnd, tier):
+    """C06: every operator between a file of plain (never masked) variables
+    and a masked version of it, in both operand orders."""
+    nowhere = {'h': False, 'shape': [], 'bits': []}
+    thr = {'T1': 103, 'T4': 402, 'T3': 304}
+    ops = ['+', '-', '*', '/', '//', '%', '**', '<', '<=', '>', '>=', '==',
+           '!=']
+    progs = []
+    for t in sorted(thr):
+        steps = [{'act': 'mask', 'src': 2, 'others': [], 'args': {
+            'p': [{'k': 'greater', 'v': thr[t]}], 'where': nowhere,
+            'usedims': {'h': False, 'v': []}, 'coords': False}}]
+        for op in ops:
+            steps.append({'act': 'arith', 'src': 1, 'others': [3],
+                          'args': {'op': op}})
+            steps.append({'act': 'arith', 'src': 3, 'others': [1],
+                          'args': {'op': op}})
+        progs.append({'templates': [t, t], 'steps': steps})
+    return progs
+
+
 def multidim_applies(rnd, tier):
     """C03: every pair / triple of dimensions of every template reduced in ONE
     call - with one reducer name for all of them, and with min/max
@@ -365,6 +386,7 @@ def run(prop, tier, extra=None):
             ['T1', 'T2', 'T3', 'T4', 'T5', 'T7'])
     if prop == 'C06':
         progs += mask_codes(rnd, tier)
+        progs += mixed_arith(rnd, tier)
     if prop == 'C04':
         progs += hetero_stacks(rnd, tier)
         progs += mfopen_stacks(rnd, tier)
